@@ -577,6 +577,12 @@ def ob_from_name(fns):
         goals = [L == n]
         kinds = []
         for k in range(n):
+            single, mdl = _valid(ob, pc, z3.Not(z3.Bool(f"rdn{k}_multi_valued")), label + f"/rdn{k}-single-valued")
+            if not single:
+                ob.result = "fail"
+                ob.reason = f"a name whose RDN #{k} has more than one attribute is imported (the further attributes are dropped) instead of refused"
+                ob.cex = {"op": "dn-from-name", "features": ["x509-parser", "pem"], "kind": "multi-valued", "what": ob.reason}
+                return ob
             kind = None
             for tag, nm in TAGS.items():
                 is_t, _ = _valid(ob, pc, z3.Int(f"rdn{k}_tag") == tag, label + f"/rdn{k}-tag-{nm}")
